@@ -21,7 +21,7 @@ LEVEL_TEXT = (
     'every chord-kind abbreviation is accepted by the chord-symbol grammar and the figure is assembled root, kind, degrees, /bass; '
     'parse errors are converted to MusicXMLConversionError. Onset/duration values and partial-measure repair are not decided.')
 LEVEL_NOTE = 'Trusted: constant folding; xml.etree API typing (find -> Element|None, .text -> str|None); the music-theory oracle.'
-TECHNIQUE = 'static analysis: flow typing of ElementTree values, rational/affine normal forms with straight-line substitution, sibling agreement of four conversions, folded-table vs. oracle agreement, exception containment'
+TECHNIQUE = 'static analysis: flow typing of ElementTree values, rational/affine normal forms with straight-line substitution, sibling agreement of four conversions, folded-table vs. oracle agreement, exception containment, constant folding of raising guards over the finite key domain'
 DESIGN_REF = 'DESIGN.md section 4 (C05)'
 EXPLANATION = ('ELEM typed-comparison scan over musicxml_parser; PITCH affine form of pitch_to_midi_pitch and transposition; CONV sibling '
                'agreement of the four duration conversions, cursor directions, chord onset, part reset, tempo update; KEY fifths table and '
@@ -1318,3 +1318,4 @@ EXPLANATION += (' Round 7: ' + 'HARMONY/accidental-spelling (five alterations fo
 EXPLANATION += (' Rounds 9-10: ' + 'REPAIR/only-a-measure-without-notes; TEMPO/default-only-without-marks (guard exact vs. one disjunct of a wider or).')
 EXPLANATION += (' Round 11: ' + 'FIG/bass located when a condition on the root guards the bass; METER/complete-bar-keeps-the-meter (_fix_time_signature on seven scenarios).')
 EXPLANATION += (' Round 12: ' + 'PITFALL/case-folded-key over musicxml_parser (class-level tables included).')
+EXPLANATION += (' Round 14: ' + 'KEY/every-key-in-range-accepted (the fifteen keys folded through every raising guard on the fifths count); KEY/wrap-both-ways (statement-form folds by 12).')
